@@ -49,10 +49,10 @@ type NSDef struct {
 }
 
 const (
-	EncNone = iota // namespaces without relation configuration
-	EncAST         // Go AST through config.Set(namespaces, []*namespace.Namespace)
-	EncOPL         // OPL text, fully parenthesised
-	EncOPLMin      // OPL text, TypeScript-minimal parentheses
+	EncNone   = iota // namespaces without relation configuration
+	EncAST           // Go AST through config.Set(namespaces, []*namespace.Namespace)
+	EncOPL           // OPL text, fully parenthesised
+	EncOPLMin        // OPL text, TypeScript-minimal parentheses
 )
 
 type Config struct {
